@@ -52,9 +52,171 @@ def sharing_histories(seed, n):
     return out
 
 
+# ------------------------------------------------------------------------------------------------
+# `xvc file remove --from-storage` (local storage): sharing scenarios against the storage
+
+def storage_removal_scenario(chk, xvc, name, rng):
+    """returns (model lines, real observations per line or None, oracle failures)"""
+    import os, shutil
+    import repo_harness as rh
+    import c06
+    from xvcbin import Sandbox
+    base = os.path.join(chk.scratch, 'c05st', name)
+    os.makedirs(base, exist_ok=True)
+    lines, obs, fails = [], [], []
+    table = rh.Table()
+    cfg = {'algo': rng.choice([0, 0, 1, 2, 3]), 'method': rng.choice(['copy', 'hardlink', 'symlink']), 'tob': 'auto'}
+    cargs = rh.Runner.cfg_args(None, cfg)
+    A = Sandbox(base, 'A', xvc); A.init()
+    e = rng.choice(['txt', 'bin', ''])
+    nm = lambda s: s + ('.' + e if e else '')
+    a, b, c = nm('a'), nm('d/b'), nm('c')
+    X, Y, Z = [bytes(f'{t}-{name}-{rng.randint(0, 999)}\n', 'ascii') + (b'\x00' if rng.random() < 0.3 else b'') for t in 'XYZ']
+    lines.append('\t'.join(['cfg', str(cfg['algo']), cfg['method'], cfg['tob']])); obs.append(None)
+    stamps = {'k': 0, 'mine': set()}
+
+    def write(p, by):
+        A.write(p, by); table.add(by); lines.append('\t'.join(['write', p, by.hex()])); obs.append(None)
+
+    def xvc_cmd(args, model_line, compare='repo'):
+        r, out, err = A.x(*(cargs + args))
+        rh.Runner.restamp(A, stamps)
+        lines.append(model_line)
+        obs.append(('repo', r, rh.abstraction(rh.Obs(A), table)) if compare == 'repo' else None)
+        return r, out, err
+
+    sdir = os.path.join(base, 'storage')
+
+    def send(paths):
+        A.x(*(cargs + ['file', 'send', '--to', 'st'] + paths))
+        lines.append('\t'.join(['send', '1'] + [f'{p}=ok' for p in paths])); obs.append(None)
+
+    write(a, X); write(b, X if rng.random() < 0.6 else Y)
+    xvc_cmd(['file', 'track', '--no-parallel', a, b], '\t'.join(['track', '-', '-', '0', '0', a, b]))
+    A.x('storage', 'new', 'local', '--name', 'st', '--path', sdir)
+    gA = c06.guid_of(A)
+    send([a, b])
+    kind = rng.choice(['plain', 'target-history', 'non-target-earlier-version', 'three', 'unsent-version'])
+    if kind in ('target-history', 'three', 'unsent-version'):
+        write(a, Z); xvc_cmd(['file', 'carry-in', '--no-parallel', a], '\t'.join(['carryin', '-', '0', a]))
+        if kind != 'unsent-version': send([a])
+    if kind in ('non-target-earlier-version', 'three'):
+        write(b, Y); xvc_cmd(['file', 'carry-in', '--no-parallel', b], '\t'.join(['carryin', '-', '0', b])); send([b])
+    if kind == 'three':
+        write(c, X); xvc_cmd(['file', 'track', '--no-parallel', c], '\t'.join(['track', '-', '-', '0', '0', c])); send([c])
+    pre = rh.Obs(A)
+    tree0 = c06.storage_tree(sdir)
+    targets = rng.choice([[a], [a], [b], [a, b]])
+    force = rng.random() < 0.2
+    selk = rng.choice(['cur', 'cur', 'all', 'all', 'only'])
+    args = ['file', 'remove', '--from-storage', 'st']
+    also_cache = rng.random() < 0.25
+    if also_cache: args.append('--from-cache')
+    sel = '0'
+    if selk == 'all': args.append('--all-versions'); sel = '1'
+    if selk == 'only':
+        bp, bk = rng.choice(targets), rng.choice([0, 0, 1])
+        hist = pre.recs.get(bp, {}).get('hist', [])
+        hexp = ''.join(f'{x:02x}' for x in hist[bk]['digest'])[:12] if bk < len(hist) else 'ffffffffffff'
+        args += ['--only-version', hexp]; sel = f'only:{bp}:{bk}'
+    if force: args.append('--force')
+    # order of the cache path strings of all recorded versions (the model does not know the hex strings)
+    items = sorted(rh.restore_items(pre), key=lambda it: it[3])
+    hint = [str(x) for it in items for x in (it[0], it[1])]
+    r, out, err = A.x(*(cargs + args + targets))
+    post = rh.Obs(A)
+    tree1 = c06.storage_tree(sdir)
+    if also_cache:
+        lines.append('\t'.join(['remove', sel, '1' if force else '0'] + targets)); obs.append(('repo', 0 if r in (0, 1) else r, rh.abstraction(post, table)))
+    lines.append('\t'.join(['sremove', '1', sel, '1' if force else '0', str(len(items))] + hint + targets))
+    sabs = []
+    for rel, by in tree1.items():
+        g, _, crel = rel.partition('/')
+        pfx, hexd, ext = rh.addr_parts(crel)
+        sabs.append(f"{'1' if g == gA else '?' + g}:{table.digest_token(rh.PREFIX_IDX.get(pfx, 9), hexd)}:{ext}={rh.fp(by)}")
+    obs.append(('storage', r, 'st={' + ';'.join(sorted(sabs)) + '}'))
+    chk.count(f'storage-remove:{kind}:{selk}{":force" if force else ""}{":+cache" if also_cache else ""}:rc={r}:deleted={len(tree0) - len(tree1)}')
+    # ---- oracle (model independent): what disappeared from the storage
+    needed, of_targets = {}, set()
+    for q, rr in pre.recs.items():
+        for d in rr['hist']:
+            if q in targets:
+                of_targets.add(rc.rec_addr(rr, q, d))
+            else:
+                needed.setdefault(rc.rec_addr(rr, q, d), q)
+    for rel in tree0:
+        if rel in tree1: continue
+        g, _, crel = rel.partition('/')
+        if g != gA:
+            fails.append((f"remove --from-storage deleted {rel}, which is not under the repository's guid", {'kind': 'storage-deleted-foreign-guid'}))
+        if crel not in of_targets:
+            fails.append((f"`xvc {' '.join(args + targets)}` deleted storage object {crel}, which is no recorded version of a target", {'kind': 'storage-deleted-non-target-version'}))
+        if not force and crel in needed:
+            fails.append((f"`xvc {' '.join(args + targets)}` deleted storage object {crel}, still referred to by tracked path {needed[crel]} (not a target)",
+                          {'kind': 'storage-deleted-referenced-object'}))
+    for rel, by in tree1.items():
+        if tree0.get(rel) != by:
+            fails.append((f'remove --from-storage changed or created storage entry {rel}', {'kind': 'storage-entry-changed'}))
+    if not also_cache and sorted(post.cache) != sorted(pre.cache):
+        fails.append(('remove --from-storage (without --from-cache) changed the cache', {'kind': 'from-storage-touched-cache'}))
+    A.cleanup(); shutil.rmtree(base, ignore_errors=True)
+    return {'lines': lines, 'obs': obs, 'fails': fails, 'readable': f"{kind}: xvc {' '.join(args + targets)}"}
+
+
+def storage_removal(chk, n):
+    import os, subprocess, hashlib, json
+    from concurrent.futures import ThreadPoolExecutor
+    import repo_harness as rh
+    xvc = chk.build_xvc()
+    import common
+    model = os.path.join(common.LEAN_DIR, 'XvcRepo', '.lake', 'build', 'bin', 'repomodel')
+    rngs = [random.Random(f'c05-storage-{chk.seed}-{i}') for i in range(n)]
+
+    def one(i):
+        try:
+            return storage_removal_scenario(chk, xvc, f's{i}', rngs[i])
+        except Exception:
+            import traceback
+            return {'lines': [], 'obs': [], 'fails': [('harness error: ' + traceback.format_exc()[-700:], {'kind': 'harness-error'})], 'readable': 'harness error'}
+    with ThreadPoolExecutor(max_workers=8) as ex:
+        done = list(ex.map(one, range(n)))
+    st = chk.tie['streams'].setdefault('remove-from-storage', {'scenarios': 0, 'compared_lines': 0, 'disagreements': 0})
+    for s in done:
+        chk.evaluations += 1
+        st['scenarios'] += 1
+        chk.nontrivial.add(hashlib.sha1('\n'.join(s['lines']).encode()).hexdigest())
+        if os.path.exists(model) and s['lines']:
+            p = subprocess.run([model], input='\n'.join(s['lines']) + '\n', stdout=subprocess.PIPE, text=True, timeout=600)
+            out = p.stdout.split('\n')
+            for line, real, mo in zip(s['lines'], s['obs'], out):
+                if real is None: continue
+                st['compared_lines'] += 1
+                kind, r, ab = real
+                if kind == 'storage':
+                    # the model line is `rc=<..> st={..}`; exit class: error (1) <-> refused
+                    want = mo.split(' ', 1)[1] if ' ' in mo else mo
+                    d = None if want == ab else f'storage: implementation {ab} model {want}'
+                    mrc = mo.split(' ')[0]
+                    if d is None and (r == 0) != (mrc == 'rc=ok'):
+                        d = f'exit class: implementation rc={r} model {mrc}'
+                else:
+                    d = rh.compare_step({'abs': ab, 'rc': r}, mo)
+                if d:
+                    st['disagreements'] += 1
+                    chk.disagreement('remove-from-storage', {'scenario': s['readable'], 'lines': [l[:200] for l in s['lines']]}, str(real)[:1500], mo[:1500], f'at `{line[:120]}`: {d[:600]}')
+                    break
+        seen = set()
+        for msg, sig in s['fails']:
+            k = json.dumps(sig, sort_keys=True)
+            if k in seen: continue
+            seen.add(k)
+            chk.oracle_failure(msg, {'scenario': s['readable'], 'model_lines': [l[:300] for l in s['lines']]}, None, signature=sig)
+
+
 def run(chk):
     n = 60 if chk.tier == 'quick' else 600
-    return rc.run_property(chk, 'C05', ORACLES, restore=RESTORE, nq=220, extra_corpus=sharing_histories(chk.seed, n))
+    return rc.run_property(chk, 'C05', ORACLES, restore=RESTORE, nq=220, extra_corpus=sharing_histories(chk.seed, n),
+                           before_finish=lambda: storage_removal(chk, 36 if chk.tier == 'quick' else 360))
 
 
 def replay(chk, data):
